@@ -37,6 +37,7 @@ const (
 	wRLock
 	wOnce
 	wQuiesce
+	wIdle
 )
 
 const maxWorkers = 8192
@@ -56,6 +57,8 @@ type worker struct {
 	name     string
 	steps    int
 	blocks   int
+	wakeAt   time.Time // wIdle: not before this instant of the bubble clock
+	within   time.Duration // wQuiesce: quiet period required
 }
 
 // Violation is the record of a failed oracle.
@@ -146,6 +149,7 @@ type Sim struct {
 	pctChg   []int
 	timerSeq int
 	simElapsed time.Duration
+	skipped    time.Duration
 	onStep   []func()
 	data     interface{}
 }
@@ -444,7 +448,7 @@ func (s *Sim) result() Result {
 	} else {
 		r.Tape = s.cfg.Tape
 	}
-	r.SimTime = s.simElapsed - time.Duration(s.quiesc)*horizon
+	r.SimTime = s.simElapsed - s.skipped
 	for i := 0; i < s.nworkers; i++ {
 		w := &s.workers[i]
 		if w.state != stDone {
@@ -489,7 +493,7 @@ func (s *Sim) enabledLocked(buf []*worker) []*worker {
 			if s.onceRunning(w.waitPtr) {
 				continue
 			}
-		case wQuiesce:
+		case wQuiesce, wIdle:
 			continue
 		}
 		buf = append(buf, w)
@@ -558,17 +562,51 @@ func (s *Sim) controller() {
 			return
 		}
 		if len(ebuf) == 0 {
-			s.mu.Unlock()
-			if s.waitWake(horizon) {
+			// workers waiting for "idle after d": due ones become runnable now that
+			// nobody else can run; otherwise let time pass until the first is due
+			var nextDue time.Time
+			released := false
+			now := time.Now()
+			for i := 0; i < s.nworkers; i++ {
+				w := &s.workers[i]
+				if w.state == stParked && w.waitKind == wIdle {
+					if !w.wakeAt.After(now) {
+						w.waitKind = wNone
+						released = true
+					} else if nextDue.IsZero() || w.wakeAt.Before(nextDue) {
+						nextDue = w.wakeAt
+					}
+				}
+			}
+			if released {
+				s.mu.Unlock()
 				continue
 			}
-			// horizon reached: nothing can happen any more
+			if !nextDue.IsZero() {
+				s.mu.Unlock()
+				s.waitWake(nextDue.Sub(now))
+				continue
+			}
+			// quiescence: nobody can run; wait for the shortest quiet period any waiter asks for
+			quiet := horizon
+			for i := 0; i < s.nworkers; i++ {
+				w := &s.workers[i]
+				if w.state == stParked && w.waitKind == wQuiesce && w.within > 0 && w.within < quiet {
+					quiet = w.within
+				}
+			}
+			s.mu.Unlock()
+			if s.waitWake(quiet) {
+				continue
+			}
+			// nothing happened for the whole quiet period
 			s.mu.Lock()
 			s.quiesc++
+			s.skipped += quiet
 			if qw > 0 {
 				for i := 0; i < s.nworkers; i++ {
 					w := &s.workers[i]
-					if w.state == stParked && w.waitKind == wQuiesce {
+					if w.state == stParked && w.waitKind == wQuiesce && ((w.within == 0 && quiet == horizon) || (w.within > 0 && w.within <= quiet)) {
 						w.waitKind = wNone
 					}
 				}
